@@ -95,16 +95,18 @@ def run(chk):
         nbeh += len(beh)
         bpath = os.path.join(w, cfg + ".beh.ndjson")
         tpath = os.path.join(w, cfg + ".trace.ndjson")
-        vlib.write_ndjson(bpath, beh)
-        s = vlib.harness(["hid", "replay", "--in", bpath, "--out", tpath, "--seed", chk.seed, "--vary-fill", "1"])
         chk.sample({"behaviour_from": cfg, "behaviour": beh[rnd.randrange(len(beh))]})
-        validate(chk, tpath, "replay of " + cfg)
-        os.remove(tpath)
+        # (validated in chunks: one TLC run deserialises its whole trace into memory)
+        for k in range(0, len(beh), 20000):
+            vlib.write_ndjson(bpath, beh[k:k + 20000])
+            s = vlib.harness(["hid", "replay", "--in", bpath, "--out", tpath, "--seed", chk.seed + k, "--vary-fill", "1"])
+            validate(chk, tpath, "replay of " + cfg + (" [%d..]" % k if k else ""))
+            os.remove(tpath)
     chk.cov["behaviours_replayed"] = nbeh
 
     # 3. sender layout for payload lengths (every boundary; every length in the thorough tier)
     if thorough:
-        lens = "0..7700,65535,65536,70000"
+        lens = None
     else:
         b = set([0, 1, 56, 57, 58, 7607, 7608, 7609, 7610, 7611, 65535, 65536, 70000])
         for k in list(range(1, 8)) + [64, 126, 127, 128]:
@@ -113,20 +115,26 @@ def run(chk):
         b.update(rnd.randrange(0, 7700) for _ in range(200))
         lens = ",".join(str(x) for x in sorted(b))
     tpath = os.path.join(w, "lens.trace.ndjson")
-    s = vlib.harness(["hid", "lens", "--lens", lens, "--out", tpath, "--seed", chk.seed])
-    chk.cov["sender_lengths"] = s["lengths"]
-    validate(chk, tpath, "sender lengths")
-    ev = vlib.read_ndjson(tpath)
-    chk.sample({"sender_event": {k: (v if k != "pk" else v[:2]) for k, v in ev[-3].items()}})
-    os.remove(tpath)
+    # every length 0..7700 in the thorough tier, 550 lengths per validated trace
+    batches = [lens] if lens else ["%d..%d" % (a, min(a + 549, 7700)) for a in range(0, 7701, 550)] + ["65535,65536,70000"]
+    chk.cov["sender_lengths"] = 0
+    for i, b in enumerate(batches):
+        s = vlib.harness(["hid", "lens", "--lens", b, "--out", tpath, "--seed", chk.seed + i])
+        chk.cov["sender_lengths"] += s["lengths"]
+        validate(chk, tpath, "sender lengths" + (" " + b if len(batches) > 1 else ""))
+        if i == 0:
+            ev = vlib.read_ndjson(tpath)
+            chk.sample({"sender_event": {k: (v if k != "pk" else v[:2]) for k, v in ev[-3].items()}})
+        os.remove(tpath)
 
     # 4. implementation -> spec: random interleavings of long streams (sampled, as the property says)
     runs = 3000 if thorough else 150
     tpath = os.path.join(w, "random.trace.ndjson")
-    s = vlib.harness(["hid", "random", "--runs", runs, "--out", tpath, "--seed", chk.seed])
     chk.cov["random_long_runs"] = runs
-    validate(chk, tpath, "random long streams")
-    os.remove(tpath)
+    for k in range(0, runs, 300):
+        s = vlib.harness(["hid", "random", "--runs", min(300, runs - k), "--out", tpath, "--seed", chk.seed + k])
+        validate(chk, tpath, "random long streams" + (" [%d..]" % k if k else ""))
+        os.remove(tpath)
 
     # 5. unbounded payload length (thorough tier): Apalache discharges the inductive invariant of HidInd.tla.
     #    A stall or tool failure is a note, never a verdict; a counterexample is a violation of the model.
